@@ -48,7 +48,9 @@ type Host interface {
 // Exchange is one logged request/response.
 type Exchange struct {
 	Seq       int
-	At        time.Duration
+	Sent      time.Duration // RoundTrip entered
+	At        time.Duration // delivered at the host
+	RespAt    time.Duration // response handed to the client
 	Task      string
 	Method    string
 	Scheme    string
@@ -280,6 +282,9 @@ func (n *Net) RoundTrip(req *http.Request) (*http.Response, error) {
 	x := &Exchange{Seq: n.seq, Task: simrt.TaskID(), Method: req.Method, Scheme: req.URL.Scheme, Host: req.URL.Host, Path: req.URL.Path,
 		Query: req.URL.RawQuery, ReqHeader: req.Header.Clone(), Redirect: req.Response != nil}
 	n.Log = append(n.Log, x)
+	if s := simrt.Cur(); s != nil {
+		x.Sent = s.Elapsed()
+	}
 	closeBody := func() {
 		if req.Body != nil {
 			req.Body.Close()
@@ -288,6 +293,9 @@ func (n *Net) RoundTrip(req *http.Request) (*http.Response, error) {
 	fail := func(err error) (*http.Response, error) {
 		closeBody()
 		x.Err = err.Error()
+		if s := simrt.Cur(); s != nil {
+			x.RespAt = s.Elapsed()
+		}
 		simrt.Event("%s err=%v", x, err)
 		return nil, err
 	}
@@ -374,6 +382,7 @@ func (n *Net) RoundTrip(req *http.Request) (*http.Response, error) {
 		return fail(ErrReset)
 	}
 	x.Status = r.Status
+	x.RespAt = simrt.Cur().Elapsed()
 	x.RespHdr = r.Header
 	x.RespLen = len(r.Body)
 	resp := &http.Response{StatusCode: r.Status, Status: strconv.Itoa(r.Status) + " " + http.StatusText(r.Status), Proto: "HTTP/1.1", ProtoMajor: 1, ProtoMinor: 1,
